@@ -37,7 +37,10 @@ P = {
   text="PROVED for every hash function H (SHA-256d opaque): txid = H(stripped bytes), independent of any witness "
        "assignment; wtxid = H(full bytes); full = stripped bytes iff no witness (ids differ exactly when a stack is "
        "non-empty, collision-freeness on the two preimages an explicit hypothesis); block hash = header hash "
-       "whatever vtx; ==/hash() determined by the serialisation, NotImplemented across class families. The clause "
+       "whatever vtx; == determined by the serialisation and equal objects report one hash() (model fact: hash is a function "
+       "of the serialisation; T2 compares only the RELATION — all constructions of equal field values report one "
+       "hash() value, before and after the caches are filled — never hash(x) == hash(bytes); == across class "
+       "families is observed out of domain only). The clause "
        "'mutable and immutable objects agree' is definitional in this value-level model (the class tag is never "
        "read) — its content is proved on C09's heap model (heap_ident_eq_value) and tied by T2: hash/==/GetHash/dict "
        "membership compared for every class pair, also after in-place edits.",
